@@ -7,12 +7,13 @@
 //	tab  <id> <hex text> <sha256 hex> <valid 0/1>
 //	run  <cache> <req tokens> <observed tokens> <final cache contents>
 //
-// request token   <q>/<ext>/<shape>   q = text id | "-" (empty query)
+// request token   <q>/<ext>/<shape>[^<operationName>]   q = text id | "-" (empty query)
 //
 //	ext = a (absent) | m (malformed) | <version>,<hash>   hash = #<id> (sha of text id) | =<hex of literal>
 //	shape = which concrete Go/JSON value is put into extensions.persistedQuery
 //
-// observed token  <class>|x:<executed text id or ->|<cache calls>   class = run:<q> inv ver nf mm
+// observed token  <class>|x:<executed text id[.operation index] or ->|<cache calls>   class = run:<q> inv ver nf mm
+// (the operation index is printed for texts with more than one operation)
 // bin/check pipes `tab`/`run <cache> <reqs>` to the Lean driver, which prints the model's
 // observed tokens and final contents for the same history.
 package main
@@ -53,7 +54,9 @@ type text struct {
 	sha   string
 	valid bool
 	fam   int    // layout family (0 = none): members differ only in whitespace / ignored tokens / letter case
-	sig   string // signature of the parsed document (first field: alias, name, first argument), "" = does not parse
+	sig   string // signature of the parsed document (every operation: name, first selection), "" = does not parse
+	ops   []string // signature of every operation of a fresh parse, in source order
+	names []string // their names ("" anonymous)
 }
 
 var texts = []text{
@@ -79,7 +82,21 @@ var texts = []text{
 	{s: `{ echo(s: "x y") }`, valid: true, fam: 2},
 	{s: `{ echo(s: "x  y") }`, valid: true, fam: 2},
 	{s: "{ echo(s: \"x y\") }\r\n", valid: true, fam: 2},
+	// texts with SEVERAL operations (the request's operationName selects one) and named single operations. The
+	// bodies differ from text to text (aliases), so that an operation executed out of another text's document
+	// is recognised.
+	{s: "query A { a } query B { b } query C { c }", valid: true, fam: 3},                    // 18
+	{s: "query B { x: b } query A { y: a }", valid: true},                                   // 19 same names, other order
+	{s: "query A { z: a }", valid: true},                                                    // 20 one named operation
+	{s: "query A { ...F } query B { w: b ...F } fragment F on Query { c }", valid: true},    // 21 shared fragment
+	{s: "query A { a } query A { b }", valid: false},                                        // 22 duplicate name: rejected
+	{s: "{ a } query B { b }", valid: false},                                                // 23 anonymous + named: rejected
+	{s: "query A { u: a } query B { u: b } query C { u: c } query D { u: echo(s: \"d\") }", valid: true}, // 24
+	{s: "query  A { a }  query B { b } query C { c }", valid: true, fam: 3},                 // 25 layout sibling of 18
 }
+
+// multiOp: ids of the texts above (operation dimension of the generators)
+var multiOp = []int{18, 19, 20, 21, 22, 23, 24, 25}
 
 // nStatic: texts below this index are fixed; weak-key collision pairs found at start-up are appended.
 var nStatic int
@@ -103,53 +120,115 @@ func indexText(i int) {
 	texts[i].sha = sha(texts[i].s)
 	textID[texts[i].s] = i
 	shaID[texts[i].sha] = i
+	// the independent oracle: a FRESH parse of the text (gqlparser), never a document the executor has held
 	if doc, err := parser.ParseQuery(&ast.Source{Input: texts[i].s}); err == nil {
 		texts[i].sig = docSig(doc)
+		texts[i].ops, texts[i].names = nil, nil
+		for _, o := range doc.Operations {
+			texts[i].ops = append(texts[i].ops, opSig(o))
+			texts[i].names = append(texts[i].names, o.Name)
+		}
 	}
-	if texts[i].sig != "" {
-		if _, ok := sigID[texts[i].sig]; !ok {
-			sigID[texts[i].sig] = i
+	for _, o := range texts[i].ops {
+		if _, ok := sigID[o]; !ok {
+			sigID[o] = i
 		}
 	}
 }
 
+// sigID: operation signature -> first text of the table that has such an operation
 var sigID = map[string]int{}
 
-// docSig identifies WHICH document is being executed independently of OperationContext.RawQuery: alias, name
-// and first argument of the first field of the first operation.
-func docSig(doc *ast.QueryDocument) string {
-	if doc == nil || len(doc.Operations) == 0 || len(doc.Operations[0].SelectionSet) == 0 {
-		return ""
+// opSig identifies WHICH operation is being executed independently of OperationContext.RawQuery and of the
+// operation's position: its name and its first selection (field: alias, name, first argument).
+func opSig(o *ast.OperationDefinition) string {
+	if o == nil {
+		return "<nil>"
 	}
-	f, ok := doc.Operations[0].SelectionSet[0].(*ast.Field)
-	if !ok {
-		return ""
+	s := o.Name + "="
+	if len(o.SelectionSet) == 0 {
+		return s
 	}
-	s := f.Alias + ":" + f.Name
-	if len(f.Arguments) > 0 && f.Arguments[0].Value != nil {
-		s += "(" + f.Arguments[0].Value.Raw + ")"
+	switch f := o.SelectionSet[0].(type) {
+	case *ast.Field:
+		s += f.Alias + ":" + f.Name
+		if len(f.Arguments) > 0 && f.Arguments[0].Value != nil {
+			s += "(" + f.Arguments[0].Value.Raw + ")"
+		}
+	case *ast.FragmentSpread:
+		s += "..." + f.Name
+	default:
+		s += "...on"
 	}
 	return s
 }
 
-// executed: what Exec saw - the OperationContext's RawQuery and the signature of its parsed document
-type executed struct{ raw, sig string }
-
-func seenByExec(opCtx *graphql.OperationContext) executed {
-	return executed{opCtx.RawQuery, docSig(opCtx.Doc)}
+// docSig: the signatures of all operations of a document, in order
+func docSig(doc *ast.QueryDocument) string {
+	if doc == nil || len(doc.Operations) == 0 {
+		return ""
+	}
+	var l []string
+	for _, o := range doc.Operations {
+		l = append(l, opSig(o))
+	}
+	return strings.Join(l, ";")
 }
 
-// text names the text whose DOCUMENT Exec was invoked on: the text APQ left in rawParams.Query (`post`) when
-// the executed document is that text's document; else the first text of the table with that document (so
-// that a document executed under another text's name is visible to the Spec); else a marker.
-func (x executed) text(post string) string {
-	if i, ok := textID[post]; ok && texts[i].sig == x.sig {
-		return post
+// executed: what Exec saw - the OperationContext's RawQuery, the signature of the operation it is to run, the
+// signature of the document that operation came with, and whether the operation is one of that document's
+type executed struct {
+	raw, op, doc string
+	inDoc        bool
+}
+
+func seenByExec(opCtx *graphql.OperationContext) executed {
+	x := executed{raw: opCtx.RawQuery, op: opSig(opCtx.Operation), doc: docSig(opCtx.Doc)}
+	if opCtx.Doc != nil {
+		for _, o := range opCtx.Doc.Operations {
+			if o == opCtx.Operation {
+				x.inDoc = true
+			}
+		}
 	}
-	if i, ok := sigID[x.sig]; ok && x.sig != "" {
-		return texts[i].s
+	return x
+}
+
+func opIndex(i int, sig string) int {
+	for k, o := range texts[i].ops {
+		if o == sig {
+			return k
+		}
 	}
-	return "\x00doc:" + x.sig
+	return -1
+}
+
+func unitName(i, k int) string {
+	if len(texts[i].ops) > 1 {
+		return strconv.Itoa(i) + "." + strconv.Itoa(k)
+	}
+	return strconv.Itoa(i)
+}
+
+// unit names the (text, operation) Exec was invoked on: operation k of the text APQ left in rawParams.Query
+// (`post`) when the executed operation is one of that text's; else the first text of the table with such an
+// operation (so that an operation executed out of another text's document is visible to the Spec); else a
+// marker. docOK: the document the operation came with is the document a fresh parse of that text gives.
+func (x executed) unit(post string) (name string, docOK bool) {
+	if i, ok := textID[post]; ok {
+		if k := opIndex(i, x.op); k >= 0 {
+			return unitName(i, k), x.inDoc && x.doc == texts[i].sig
+		}
+	}
+	if i, ok := sigID[x.op]; ok {
+		return unitName(i, opIndex(i, x.op)), false
+	}
+	return "?" + hex.EncodeToString([]byte("op:"+x.op)), false
+}
+
+// docMark: class suffix for an executed operation whose document is not the fresh document of the text
+func (x executed) docMark() string {
+	return "!doc=" + hex.EncodeToString([]byte(x.doc))
 }
 
 func tid(s string) string {
@@ -217,18 +296,32 @@ func newEnv() *env {
 	return e
 }
 
-// cache kind grammar: <map|no|lruN>[+q][@http]   +q = a parsed-document cache is configured on the executor,
-// @http = the history is run through handler.Server and its POST / GET transports (http.go)
+// cache kind grammar: <map|no|lruN>[+q[M]][@http]   +q = a parsed-document cache is configured on the executor
+// (+q: graphql.MapCache, +q<M>: lru.New(M)), @http = the history is run through handler.Server and its POST / GET
+// transports (http.go)
 func baseKind(kind string) (base string, qcache, http bool) {
 	if strings.HasSuffix(kind, "@http") {
 		http = true
 		kind = strings.TrimSuffix(kind, "@http")
 	}
-	if strings.HasSuffix(kind, "+q") {
+	if i := strings.Index(kind, "+q"); i >= 0 {
 		qcache = true
-		kind = strings.TrimSuffix(kind, "+q")
+		kind = kind[:i]
 	}
 	return kind, qcache, http
+}
+
+// newDocCache: the parsed-document cache of a cache kind (REAL implementations)
+func newDocCache(kind string) graphql.Cache[*ast.QueryDocument] {
+	kind = strings.TrimSuffix(kind, "@http")
+	i := strings.Index(kind, "+q")
+	if i < 0 {
+		return graphql.NoCache[*ast.QueryDocument]{}
+	}
+	if n, err := strconv.Atoi(kind[i+2:]); err == nil {
+		return lru.New[*ast.QueryDocument](n)
+	}
+	return graphql.MapCache[*ast.QueryDocument]{}
 }
 
 func newCache(kind string) graphql.Cache[string] {
@@ -254,12 +347,16 @@ type req struct {
 	hash  string // concrete hash string (for 'd')
 	shape string
 	// @http histories only
+	op  string // operationName (shape suffix ^<name>)
 	get bool   // carried by the GET transport (shape suffix @g); default POST application/json
 	par string // "" | p1 p2 | q1 q2: member of a pair of requests in flight at once (shape suffix ~p1 …)
 }
 
 func (r req) suffix() string {
 	s := ""
+	if r.op != "" {
+		s += "^" + r.op
+	}
 	if r.get {
 		s += "@g"
 	}
@@ -303,6 +400,10 @@ func parseToken(tok string) (req, error) {
 	if strings.HasSuffix(r.shape, "@g") {
 		r.get = true
 		r.shape = strings.TrimSuffix(r.shape, "@g")
+	}
+	if i := strings.Index(r.shape, "^"); i >= 0 {
+		r.op = r.shape[i+1:]
+		r.shape = r.shape[:i]
 	}
 	if p[0] == "!" {
 		if p[1] != "b" {
@@ -356,7 +457,7 @@ func parseToken(tok string) (req, error) {
 // concretise builds the RawParams a transport would hand to the executor. The abstract class of every
 // shape (absent / malformed / decoded v h) is this harness's model of mapstructure.Decode (library).
 func (r req) params() (*graphql.RawParams, error) {
-	p := &graphql.RawParams{}
+	p := &graphql.RawParams{OperationName: r.op}
 	if r.q >= 0 {
 		p.Query = texts[r.q].s
 	}
@@ -486,7 +587,10 @@ func (e *env) do(r req) (tok string) {
 	}()
 	x := "-"
 	if len(e.es.executed) == 1 {
-		x = tid(e.es.executed[0].text(p.Query))
+		var docOK bool
+		if x, docOK = e.es.executed[0].unit(p.Query); !docOK {
+			class += e.es.executed[0].docMark()
+		}
 	} else if len(e.es.executed) > 1 {
 		x = "multi"
 	}
@@ -520,11 +624,8 @@ func (e *env) runHistory(kind string, h []req) string {
 	}
 	inner := newCache(kind)
 	e.rec.inner = inner
-	if qc {
-		e.ex.SetQueryCache(graphql.MapCache[*ast.QueryDocument]{})
-	} else {
-		e.ex.SetQueryCache(graphql.NoCache[*ast.QueryDocument]{})
-	}
+	_ = qc
+	e.ex.SetQueryCache(newDocCache(kind))
 	toks := make([]string, len(h))
 	obs := make([]string, len(h))
 	for i, r := range h {
@@ -576,6 +677,33 @@ func alpha(i int) req {
 
 const nAlpha = 18
 
+// the 16 request kinds of the OPERATION alphabet (-mode exhop): which operation of a registered text runs must
+// not depend on what was selected before. Text 18 = [A B C], 19 = [B A] (other bodies), 20 = [A] alone.
+func alphaOp(i int) req {
+	names := []string{"A", "B", "C", ""}
+	switch {
+	case i < 4:
+		return req{q: 18, ext: 'd', ver: 1, hash: texts[18].sha, shape: "f64", op: names[i]}
+	case i < 8:
+		return req{q: -1, ext: 'd', ver: 1, hash: texts[18].sha, shape: "f64", op: names[i-4]}
+	case i < 10:
+		return req{q: 19, ext: 'd', ver: 1, hash: texts[19].sha, shape: "f64", op: names[i-8]}
+	case i < 12:
+		return req{q: -1, ext: 'd', ver: 1, hash: texts[19].sha, shape: "f64", op: names[i-10]}
+	case i < 14:
+		return req{q: 18, ext: 'a', shape: "missing", op: names[(i-12)*2]}
+	case i == 14:
+		return req{q: 20, ext: 'd', ver: 1, hash: texts[20].sha, shape: "f64"}
+	default:
+		return req{q: -1, ext: 'd', ver: 1, hash: texts[20].sha, shape: "f64", op: "B"}
+	}
+}
+
+const nAlphaOp = 16
+
+// the alphabet -mode exh / exhop enumerates
+var alphaFn, alphaN = alpha, nAlpha
+
 // exhaustive: all histories over the alphabet of length exactly L that start with the fixed `prefix`
 // (alphabet indices). The first free position is sharded over goroutines; output order is deterministic.
 func exhaustive(w *bufio.Writer, kind string, L int, prefix []int) {
@@ -583,15 +711,15 @@ func exhaustive(w *bufio.Writer, kind string, L int, prefix []int) {
 	if free <= 0 {
 		h := make([]req, 0, L)
 		for _, x := range prefix[:L] {
-			h = append(h, alpha(x))
+			h = append(h, alphaFn(x))
 		}
 		w.WriteString(newEnv().runHistory(kind, h))
 		return
 	}
-	outs := make([][]byte, nAlpha)
+	outs := make([][]byte, alphaN)
 	var wg sync.WaitGroup
 	sem := make(chan struct{}, runtime.NumCPU())
-	for s := 0; s < nAlpha; s++ {
+	for s := 0; s < alphaN; s++ {
 		wg.Add(1)
 		go func(s int) {
 			defer wg.Done()
@@ -606,14 +734,14 @@ func exhaustive(w *bufio.Writer, kind string, L int, prefix []int) {
 			h := make([]req, L)
 			for {
 				for i, x := range idx {
-					h[i] = alpha(x)
+					h[i] = alphaFn(x)
 				}
 				sb.WriteString(e.runHistory(kind, h))
 				// increment positions p0+1..L-1
 				k := L - 1
 				for k > p0 {
 					idx[k]++
-					if idx[k] < nAlpha {
+					if idx[k] < alphaN {
 						break
 					}
 					idx[k] = 0
@@ -640,8 +768,27 @@ func literalHashes(own string) []string {
 	return []string{strings.ToUpper(own), own + " ", own[:8], "", "deadbeef", "0" + own[1:], own + "00"}
 }
 
-func randReq(r *rng.R, nt int) req {
-	t := r.Below(nt)
+// randReq: one request about a text of `pool` (text ids), with an operationName fitting that text most of the time
+func randReq(r *rng.R, pool []int) req {
+	t := pool[r.Below(len(pool))]
+	q := randReqOn(r, pool, t)
+	if q.ext == 'b' {
+		return q
+	}
+	names := texts[t].names
+	named := len(names) > 1 || (len(names) == 1 && names[0] != "")
+	switch c := r.Below(100); {
+	case named && c < 72:
+		q.op = names[r.Below(len(names))]
+	case named && c < 82:
+		q.op = []string{"A", "B", "C", "D", "Z"}[r.Below(5)]
+	case !named && c < 6:
+		q.op = []string{"A", "B"}[r.Below(2)]
+	}
+	return q
+}
+
+func randReqOn(r *rng.R, pool []int, t int) req {
 	own := texts[t].sha
 	shape := decShapes[r.Below(len(decShapes))]
 	switch c := r.Below(100); {
@@ -652,12 +799,12 @@ func randReq(r *rng.R, nt int) req {
 	case c < 62: // text only
 		return req{q: t, ext: 'a', shape: absShapes[r.Below(len(absShapes))]}
 	case c < 67: // text with another text's hash
-		return req{q: t, ext: 'd', ver: 1, hash: texts[r.Below(nt)].sha, shape: shape}
+		return req{q: t, ext: 'd', ver: 1, hash: texts[pool[r.Below(len(pool))]].sha, shape: shape}
 	case c < 72: // text with the hash of a layout sibling (same document up to whitespace / ignored tokens / case)
-		if sib := siblings(t, nt); len(sib) > 0 {
+		if sib := siblings(t, pool); len(sib) > 0 {
 			return req{q: t, ext: 'd', ver: 1, hash: texts[sib[r.Below(len(sib))]].sha, shape: shape}
 		}
-		return req{q: t, ext: 'd', ver: 1, hash: texts[r.Below(nt)].sha, shape: shape}
+		return req{q: t, ext: 'd', ver: 1, hash: texts[pool[r.Below(len(pool))]].sha, shape: shape}
 	case c < 78: // text with a near-miss / garbage hash
 		l := literalHashes(own)
 		return req{q: t, ext: 'd', ver: 1, hash: l[r.Below(len(l))], shape: shape}
@@ -707,30 +854,60 @@ func randReq(r *rng.R, nt int) req {
 	}
 }
 
-// siblings: the other members of t's layout family among the first nt texts
-func siblings(t, nt int) []int {
+// siblings: the other members of t's layout family in the pool
+func siblings(t int, pool []int) []int {
 	var l []int
 	if texts[t].fam == 0 {
 		return nil
 	}
-	for i := 0; i < nt && i < nStatic; i++ {
-		if i != t && texts[i].fam == texts[t].fam {
+	for _, i := range pool {
+		if i != t && i < nStatic && texts[i].fam == texts[t].fam {
 			l = append(l, i)
 		}
 	}
 	return l
 }
 
+// nSingle: the texts below this index have exactly one anonymous operation or none
+const nSingle = 18
+
+func prefixPool(n int) []int {
+	p := make([]int, n)
+	for i := range p {
+		p[i] = i
+	}
+	return p
+}
+
+// opPool: 2-4 of the texts with several / named operations, and text 0
+func opPool(r *rng.R) []int {
+	p := []int{0}
+	for n := 2 + r.Below(3); n > 0; n-- {
+		p = append(p, multiOp[r.Below(len(multiOp))])
+	}
+	if r.Bool() {
+		p = append(p, 18) // the three-operation text most of the time
+	}
+	return p
+}
+
 func random(w *bufio.Writer, r *rng.R, n int) {
 	kinds := []string{"lru1", "lru2", "lru3", "lru2+q", "lru1", "map", "lru4", "no", "map+q", "lru3+q"}
+	// operation-heavy histories (one in three): texts with several operations, a document cache most of the time
+	opKinds := []string{"map+q", "lru2+q", "lru3+q1", "map+q2", "lru4+q", "lru2", "map+q3", "lru1+q"}
 	e := newEnv()
 	for i := 0; i < n; i++ {
 		kind := kinds[r.Below(len(kinds))]
-		nt := 3 + r.Below(nStatic-2)
+		pool := prefixPool(3 + r.Below(nSingle-2))
 		L := 8 + r.Below(40)
+		if r.Below(3) == 0 {
+			kind = opKinds[r.Below(len(opKinds))]
+			pool = opPool(r)
+			L = 4 + r.Below(28)
+		}
 		h := make([]req, L)
 		for j := range h {
-			h[j] = randReq(r, nt)
+			h[j] = randReq(r, pool)
 		}
 		w.WriteString(e.runHistory(kind, h))
 	}
@@ -768,6 +945,29 @@ var directed = []string{
 	// whitespace variant is a different text with a different hash
 	"map|0/1,#0/f64 5/1,#0/f64 5/1,#5/f64 -/1,#0/f64 -/1,#5/f64",
 	"lru1|5/1,#5/f64 0/1,#5/f64 -/1,#5/f64 0/1,#0/f64 -/1,#5/f64",
+	// --- operationName: which operation of the registered text runs does not depend on what ran before
+	// B then A; A, B, A; C, A, B - hash only
+	"map+q|18/1,#18/f64^B -/1,#18/f64^A",
+	"map+q|18/1,#18/f64^A -/1,#18/f64^B -/1,#18/f64^A",
+	"lru2+q2|18/1,#18/f64^C -/1,#18/f64^A -/1,#18/f64^B -/1,#18/f64^C",
+	// the same with the text sent again each time, and with a text-only request in between
+	"map+q|18/1,#18/f64^C 18/1,#18/f64^B 18/1,#18/f64^A 18/a/missing^C -/1,#18/f64^A",
+	// no name with several operations, a name the text does not have, a name only ANOTHER registered text has
+	"map+q|18/1,#18/f64^B -/1,#18/f64 -/1,#18/f64^Z 24/1,#24/f64^D -/1,#18/f64^D -/1,#24/f64^D -/1,#24/f64^A",
+	// two texts with the same operation names in another order, interleaved
+	"map+q|18/1,#18/f64^B 19/1,#19/f64^A -/1,#18/f64^A -/1,#19/f64^B -/1,#18/f64^C -/1,#19/f64^A",
+	// a single named operation: selected by its name or by no name
+	"lru1+q1|20/1,#20/f64^A -/1,#20/f64 -/1,#20/f64^B -/1,#20/f64^A",
+	// operations sharing a fragment
+	"map+q|21/1,#21/f64^B -/1,#21/f64^A -/1,#21/f64^B",
+	// rejected multi-operation texts are registered (APQ runs before parsing) and never execute
+	"map+q|22/1,#22/f64^A -/1,#22/f64^A 23/1,#23/f64^B -/1,#23/f64^B -/1,#23/f64",
+	// a layout sibling of the three-operation text sent with its hash is a mismatch
+	"map+q|18/1,#18/f64^B 25/1,#18/f64^A -/1,#18/f64^A 25/1,#25/f64^C -/1,#25/f64^A",
+	// document cache of one entry: the document is evicted and parsed again in between
+	"map+q1|18/1,#18/f64^C 24/1,#24/f64^D -/1,#18/f64^A -/1,#24/f64^A -/1,#18/f64^B",
+	// without a document cache
+	"map|18/1,#18/f64^B -/1,#18/f64^A -/1,#18/f64^C",
 	// absent via nil value / other key: runs the text, touches no cache
 	"map|0/a/nilval 0/a/otherkey -/a/nilval -/1,#0/extra 0/1,#0/extra -/1,#0/int",
 }
@@ -929,6 +1129,9 @@ func runSpec(w *bufio.Writer, e *env, d string) error {
 			}
 			if p, err := r.params(); err == nil {
 				m := map[string]any{"query": p.Query, "extensions": p.Extensions}
+				if p.OperationName != "" {
+					m["operationName"] = p.OperationName
+				}
 				if viaHTTP {
 					m["http"] = "POST application/json"
 					if r.get {
@@ -962,7 +1165,7 @@ var concrete bool
 func main() {
 	tier := flag.String("tier", "quick", "quick|thorough")
 	seed := flag.Uint64("seed", 1, "seed")
-	mode := flag.String("mode", "all", "all|tab|directed|random|exh")
+	mode := flag.String("mode", "all", "all|tab|directed|random|exh|exhop|http|weak")
 	kind := flag.String("cache", "map", "cache kind for -mode exh")
 	L := flag.Int("len", 4, "history length for -mode exh")
 	prefix := flag.String("prefix", "", "exh: comma-separated alphabet indices the histories start with")
@@ -985,7 +1188,17 @@ func main() {
 		if t.valid {
 			v = 1
 		}
-		fmt.Fprintf(w, "tab\t%d\t%s\t%s\t%d\n", i, hex.EncodeToString([]byte(t.s)), t.sha, v)
+		ops := "-"
+		if len(t.names) > 0 {
+			l := make([]string, len(t.names))
+			for k, n := range t.names {
+				if l[k] = n; n == "" {
+					l[k] = "_"
+				}
+			}
+			ops = strings.Join(l, ",")
+		}
+		fmt.Fprintf(w, "tab\t%d\t%s\t%s\t%d\t%s\n", i, hex.EncodeToString([]byte(t.s)), t.sha, v, ops)
 	}
 	if *replay != "" {
 		concrete = true
@@ -1014,14 +1227,17 @@ func main() {
 			}
 		}
 		random(w, r, k)
-	case "exh":
+	case "exh", "exhop":
+		if *mode == "exhop" {
+			alphaFn, alphaN = alphaOp, nAlphaOp
+		}
 		var pre []int
 		for _, x := range strings.Split(*prefix, ",") {
 			if x == "" {
 				continue
 			}
 			n, err := strconv.Atoi(x)
-			if err != nil || n < 0 || n >= nAlpha {
+			if err != nil || n < 0 || n >= alphaN {
 				fmt.Fprintln(os.Stderr, "bad -prefix")
 				os.Exit(2)
 			}
@@ -1056,6 +1272,14 @@ func main() {
 		} else {
 			httpExhaustive(w, "map+q@http", 4, 8, *seed)
 		}
+		halphaFn = hopalpha
+		for l := 2; l <= 3; l++ {
+			httpExhaustive(w, "map+q@http", l, 1, 0)
+		}
+		if *tier == "thorough" {
+			httpExhaustive(w, "lru1+q1@http", 4, 1, 0)
+		}
+		halphaFn = halpha
 		k := *n
 		if k == 0 {
 			k = 1500
@@ -1087,6 +1311,12 @@ func main() {
 		random(w, r, k)
 		for l := 0; l <= 3; l++ {
 			for _, c := range []string{"map", "lru1", "lru2", "lru3", "no", "map+q"} {
+				exhaustive(w, c, l, nil)
+			}
+		}
+		alphaFn, alphaN = alphaOp, nAlphaOp
+		for l := 1; l <= 3; l++ {
+			for _, c := range []string{"map+q", "lru1+q1", "map", "lru2+q2"} {
 				exhaustive(w, c, l, nil)
 			}
 		}
